@@ -7,7 +7,7 @@ from vf import q, qlist, clist, cbool, cnat, copt, frac, fr_json
 ID = 'C11'
 COQ_DIR = 'C11'
 COQ_HEADER = 'From V Require Import Common.Num C11.Model.\nOpen Scope Q_scope.'
-RULE = ('(0) structured families that make state kept between calls matter: every unit string x every view through the views\' own get_data/set_data after the unit was converted legitimately elsewhere (24); a view written with another view as the value between streams / phases at different T, P, phase (24); F_vol / volumetric totals re-read after material moved between phases at unchanged overall composition (16); (a) 40 link scenarios in quick (5 per flag subset, all 8 subsets of link_with(flow, phase, TP)) between single-phase streams in different phases with ivol/imass reads, writes and get_flow on both sides in both orders before and after the link; (b) histories of 4-16 operations over a store of 2-3 streams (single-phase Stream and MultiStream, two property packages '
+RULE = ('(0) structured families that make state kept between calls matter: single-phase streams with cached views adopted by MultiStream.from_streams, then T/P changed through either side (16); package changes (persistent, or reset-and-restore) to a package with the chemicals at other positions or with other Chemical objects at the same positions, around name-keyed accesses and volumetric totals (24); every unit string x every view through the views\' own get_data/set_data after the unit was converted legitimately elsewhere (24); a view written with another view as the value between streams / phases at different T, P, phase (24); F_vol / volumetric totals re-read after material moved between phases at unchanged overall composition (16); (a) 40 link scenarios in quick (5 per flag subset, all 8 subsets of link_with(flow, phase, TP)) between single-phase streams in different phases with ivol/imass reads, writes and get_flow on both sides in both orders before and after the link; (b) histories of 4-16 operations over a store of 2-3 streams (single-phase Stream and MultiStream, two property packages '
         'of stub chemicals whose molar volume is an injective dyadic function of (chemical, phase, T, P)): reads of the '
         'mol/mass/vol views and totals, get_flow/get_total_flow in 8 units + 3 wrong-dimension units, writes through every view '
         '(imol/imass/ivol item, set_flow, set_total_flow, F_mol/F_mass/F_vol setters), interleaved with T/P/phase/phases setters, '
@@ -23,6 +23,8 @@ ASSUMPTIONS = [
     'the molar-volume memo of a volumetric view is reused while |dT|,|dP| < 1e-12 (ThermalCondition.in_equilibrium): vol_get is stated at the (T\',P\') of the memo entry, within 1e-12 of the current values; the generators never move T or P by less than 0.5',
     'float rounding not modelled: values compared to 1e-9 relative; branch decisions are exact because inputs are dyadic',
     'sparse storage invariant (stored keys = non-zero entries) is C09\'s; molar rows are modelled as dense vectors',
+    'what a name -> position dict of MaterialIndexer._index_caches[(phases, chemicals)] holds is C10\'s subject: the model keeps WHICH dict the molar indexer of each stream consults and lets that dict answer for its own (phases, chemicals)',
+    'MultiStream.from_streams: the adopted streams stay ordinary streams of the store (sharing rows and the ThermalCondition object with the new MultiStream); operations that go through the MultiStream\'s _streams dict (its phase / phases setters, _reset_thermo, link/unlink, copy_like as receiver) are C12\'s and skipped',
     'streams related by proxy() (one shared indexer object) are outside this model (C13/C14); each stream owns its indexer',
     'outside the modelled domain (C12/C13 own them; the model answers XDomain and the harness skips them): link_with / copy_like between streams of different property packages, flow-linking MultiStreams with different phase tuples, copy_like between MultiStreams with different phase sets, expanding the phases of a MultiStream whose data is linked, phases setters that drop or relabel a non-empty phase; a package reset that drops a chemical with non-zero flow; ms[phase] phase views',
     'F_vol reads the mixture molar volume through the stream property memo (_get_property): the memo of the one property these histories read (V) is part of the model (key = phase(s), T, P, normalised composition per phase; reset_cache call sites), for streams that are not proxies of each other; the ideal mixture rule V = sum z_i V_i is used',
@@ -36,8 +38,11 @@ TRUSTED = ['model coq/C11/Model.v is hand-written from thermosteam/indexer.py (b
 PH = {'g': 1, 'l': 2, 's': 3, 'L': 4, 'S': 5}
 PHC = {'s': 1, 'l': 2, 'g': 5}
 GIDS = {'A_': 0, 'B_': 1, 'C_': 2, 'D_': 3}
-MWS = [16., 32., 8., 4.]
-PKGS = [['A_', 'B_', 'C_'], ['C_', 'A_', 'D_', 'B_']]
+MWS = {0: 16., 1: 32., 2: 8., 3: 4., 8: 64., 9: 2., 10: 128.}
+# package 2 holds OTHER Chemical objects with the CAS numbers of A_, B_, C_ at the same positions (another MW, another
+# molar-volume model): chemical id = 8 * variant + CAS number, as in coq/C11/Model.v
+PKGS = [['A_', 'B_', 'C_'], ['C_', 'A_', 'D_', 'B_'], ['A_', 'B_', 'C_']]
+PKG_GIDS = [[0, 1, 2], [2, 0, 3, 1], [8, 9, 10]]
 UNITS = ['kmol/hr', 'mol/s', 'kg/hr', 'lb/hr', 'g/min', 'm3/hr', 'L/min', 'gal/min', 'kg', 'm/s', 'K']
 TS = [256., 320., 384., 298.15, 320.5]   # distinct values differ by far more than the 1e-12 of in_equilibrium
 PS = [65536., 101325., 131072., 65537.]
@@ -64,13 +69,14 @@ def env():
         import thermosteam as tmo
         from thermosteam.base.phase_handle import PhaseTPHandle
         chems = {}
-        for name, gid in GIDS.items():
-            c = tmo.Chemical(name, search_db=False, MW=MWS[gid], Hf=0., default=True)
+        names = {g: n for n, g in GIDS.items()}
+        for gid in sorted(MWS):
+            c = tmo.Chemical(names[gid % 8], search_db=False, MW=MWS[gid], Hf=0., default=True)
             c._V = PhaseTPHandle('V', VStub(gid, 's'), VStub(gid, 'l'), VStub(gid, 'g'), None)
-            chems[name] = c
+            chems[gid] = c
         thermos = []
-        for ids in PKGS:
-            thermos.append(tmo.Thermo(tmo.Chemicals([chems[i] for i in ids]), skip_checks=True))
+        for gids in PKG_GIDS:
+            thermos.append(tmo.Thermo(tmo.Chemicals([chems[g] for g in gids]), skip_checks=True))
         tmo.settings.set_thermo(thermos[0])
         _env.update(tmo=tmo, thermos=thermos, chems=chems)
         tab = []
@@ -91,7 +97,7 @@ def err_of(ex):
 
 # ------------------------------------------------------------------ generators
 def gen_stream(rng):
-    pkg = 0 if rng.random() < 0.7 else 1
+    pkg = rng.choice([0, 0, 0, 0, 0, 0, 1, 1, 2])
     n = len(PKGS[pkg])
     def row():
         r = [float(rng.choice([0, 0, 1, 2, F(1, 2), 3, 8])) for _ in range(n)]
@@ -106,7 +112,7 @@ def gen_stream(rng):
 
 OPKINDS = (['read'] * 5 + ['F'] * 2 + ['get_flow'] * 3 + ['get_total'] * 2 + ['set'] * 6 + ['set_flow'] * 4 + ['set_total'] * 2
            + ['setF'] * 2 + ['T'] * 3 + ['P'] * 2 + ['phase'] * 4 + ['phases'] * 3 + ['link'] * 4 + ['unlink'] * 3
-           + ['copy_like'] * 3 + ['thermo'] * 2 + ['rtrip'] * 1 + ['alias'] * 2 + ['get_data'] * 3 + ['set_data'] * 2 + ['assign'] * 3 + ['copy_row'] * 2)
+           + ['copy_like'] * 3 + ['thermo'] * 2 + ['rtrip'] * 1 + ['alias'] * 2 + ['get_data'] * 3 + ['set_data'] * 2 + ['assign'] * 3 + ['copy_row'] * 2 + ['from_streams'] * 2)
 
 def gen_op(rng):
     k = rng.choice(OPKINDS)
@@ -131,13 +137,14 @@ def gen_op(rng):
     if k == 'link': return [k, i, j, rng.random() < 0.7, rng.random() < 0.7, rng.random() < 0.7]
     if k == 'unlink': return [k, i]
     if k == 'copy_like': return [k, i, j]
-    if k == 'thermo': return [k, i, rng.randrange(2)]
-    if k == 'rtrip': return [k, i, rng.randrange(2)]
+    if k == 'thermo': return [k, i, rng.randrange(3)]
+    if k == 'rtrip': return [k, i, rng.randrange(3)]
     if k == 'alias': return [k, i]
     if k == 'get_data': return [k, i, view, rng.randrange(8), ph, chem]
     if k == 'set_data': return [k, i, view, rng.randrange(8), ph, chem, val]
     if k == 'assign': return [k, i, j, view]
     if k == 'copy_row': return [k, i, view, ph, rng.randrange(8)]
+    if k == 'from_streams': return [k, i, [rng.randrange(64) for _ in range(rng.choice([1, 2, 2, 3]))]]
     raise ValueError(k)
 
 def gen_units_case(rng, u, view):
@@ -218,6 +225,64 @@ def gen_memo_case(rng):
     ops += [vread(), ['read', 0, 'vol']]
     return {'streams': [{'kind': 'M', 'pkg': pkg, 'phases': phases, 'T': T, 'P': P, 'flow': flow}, gen_stream(rng)], 'ops': ops}
 
+def gen_adopt_case(rng):
+    """single-phase streams whose views are already cached are adopted by MultiStream.from_streams (every stream but the
+    first is re-bound to the first one's ThermalCondition object), then T / P change through either side and every view is
+    read and written again"""
+    pkg = rng.choice([0, 0, 1, 2])
+    n = len(PKGS[pkg])
+    def row():
+        r = [float(rng.choice([0, 1, 2, F(1, 2), 3, 8])) for _ in range(n)]
+        if pkg == 1: r[2] = 0.
+        return r
+    k = rng.choice([2, 2, 3])
+    phases = rng.sample(['l', 'g', 's', 'L'], k)
+    streams = [{'kind': 'S', 'pkg': pkg, 'phase': p, 'T': rng.choice(TS[:4]), 'P': rng.choice(PS[:3]), 'flow': row()} for p in phases]
+    order = rng.sample(range(k), k)
+    ops = []
+    for x in rng.sample(range(k), rng.randint(1, k)):
+        ops.append(rng.choice([['read', x, 'vol'], ['read', x, 'mass'], ['get_flow', x, rng.choice([5, 6, 7]), 0, rng.choice(PKGS[pkg][:2])],
+                               ['F', x, 'vol']]))
+    ops.append(['from_streams', order[0], order[1:]])
+    who = lambda: rng.choice(list(range(k + 1)))
+    for _ in range(rng.randint(1, 3)):
+        ops.append(rng.choice([['T', who(), rng.choice(TS)], ['P', who(), rng.choice(PS)]]))
+        x = who()
+        ops.append(rng.choice([['read', x, 'vol'], ['F', x, 'vol'], ['get_flow', x, rng.choice([5, 6, 7]), rng.randrange(4), rng.choice(PKGS[pkg][:2])],
+                               ['set', x, 'vol', rng.randrange(4), rng.choice(PKGS[pkg][:2]), float(rng.choice(VALS[1:7]))]]))
+    ops += [['read', x, 'vol'] for x in range(k + 1)]
+    return {'streams': streams, 'ops': ops}
+
+def gen_package_case(rng):
+    """the property package of a stream is changed (persistently, or reset and restored) after name-keyed accesses and
+    volumetric totals were used: to a package with the same chemicals at other positions, or with other Chemical objects
+    (other MW, other molar volume) at the same positions; then the same keys / totals are used again through every view"""
+    a, b = rng.choice([(0, 1), (1, 0), (0, 2), (2, 0), (2, 1), (1, 2)])
+    n = len(PKGS[a])
+    def row():
+        r = [float(rng.choice([0, 1, 2, F(1, 2), 3, 8])) for _ in range(n)]
+        if a == 1: r[2] = 0.
+        return r
+    if rng.random() < 0.6:
+        phases = sorted(rng.sample(['g', 'l', 's', 'L'], rng.choice([2, 3])))
+        st = {'kind': 'M', 'pkg': a, 'phases': phases, 'T': rng.choice(TS[:4]), 'P': rng.choice(PS[:3]), 'flow': [row() for _ in phases]}
+    else:
+        st = {'kind': 'S', 'pkg': a, 'phase': rng.choice(['l', 'g', 's']), 'T': rng.choice(TS[:4]), 'P': rng.choice(PS[:3]), 'flow': row()}
+    chem = lambda: rng.choice(['A_', 'B_', 'C_'])
+    def touch():
+        k = rng.random()
+        if k < 0.3: return ['get_flow', 0, rng.randrange(8), rng.randrange(4), chem()]
+        if k < 0.5: return ['set', 0, rng.choice(['mol', 'mass', 'vol']), rng.randrange(4), chem(), float(rng.choice(VALS[1:7]))]
+        if k < 0.65: return ['set_flow', 0, rng.randrange(8), rng.randrange(4), chem(), float(rng.choice(VALS[1:7]))]
+        if k < 0.85: return rng.choice([['F', 0, 'vol'], ['get_total', 0, rng.choice([5, 6, 7])]])
+        return ['get_data', 0, rng.choice(['mol', 'mass', 'vol']), rng.randrange(8), rng.randrange(4), chem()]
+    ops = [touch() for _ in range(rng.randint(1, 3))]
+    ops.append(rng.choice([['thermo', 0, b], ['thermo', 0, b], ['rtrip', 0, b]]))
+    ops += [touch() for _ in range(rng.randint(2, 4))]
+    if rng.random() < 0.5:
+        ops += [['set_total', 0, rng.choice([5, 6, 7]), float(rng.choice([1, 8, 4096]))], ['F', 0, 'vol'], ['thermo', 0, a], touch(), ['F', 0, 'vol']]
+    return {'streams': [st, gen_stream(rng)], 'ops': ops}
+
 def gen_link_case(rng, flags):
     """partial/full link between two single-phase streams of one package that are in DIFFERENT phases, with view reads and
     writes on both sides in both orders around it (the cached views must follow the flags exactly)"""
@@ -255,7 +320,7 @@ def gen_link_case(rng, flags):
 ALL_FLAGS = [[f, p, t] for f in (True, False) for p in (True, False) for t in (True, False)]
 
 def gen_cases(rng, tier):
-    n = 150 if tier == 'quick' else 3600
+    n = 120 if tier == 'quick' else 3100
     m = 5 if tier == 'quick' else 75            # link scenarios per flag subset
     cases = []
     for flags in ALL_FLAGS:
@@ -269,6 +334,10 @@ def gen_cases(rng, tier):
         cases.append(gen_viewcopy_case(rng))
     for _ in range(16 if tier == 'quick' else 200):
         cases.append(gen_memo_case(rng))
+    for _ in range(16 if tier == 'quick' else 200):
+        cases.append(gen_adopt_case(rng))
+    for _ in range(24 if tier == 'quick' else 300):
+        cases.append(gen_package_case(rng))
     for _ in range(n):
         streams = [gen_stream(rng) for _ in range(rng.choice([2, 2, 3]))]
         ops = [gen_op(rng) for _ in range(rng.randint(4, 16))]
@@ -359,6 +428,17 @@ def apply_op(store, op):
         except Exception as ex:
             ex.resolved = res
             raise
+    if k in ('phase', 'phases', 'thermo', 'rtrip', 'link', 'unlink', 'copy_like') and getattr(s, '_streams', None):
+        return ['skip'], None               # a MultiStream that owns phase streams (from_streams): C12's domain
+    if k == 'from_streams':
+        idx = [i] + [j % n for j in op[2]]
+        ss = [store[x] for x in idx]
+        if any(is_multi(x) for x in ss) or len({pkg_of(x) for x in ss}) != 1:
+            return ['skip'], None
+        res = ['from_streams', i, idx[1:]]
+        def f():
+            store.append(tmo.MultiStream.from_streams(ss))
+        return res, run(f)
     if k == 'read':
         res = ['read', i, op[2]]
         return res, run(lambda: dense({'mol': lambda: s.imol, 'mass': lambda: s.imass, 'vol': lambda: s.ivol}[op[2]]().data))
@@ -532,6 +612,7 @@ def cop(o):
     if k == 'set_data': return f'(OSetData {cnat(o[1])} {VIEW[o[2]]} {cnat(o[3])} {cnat(o[4])} {cnat(o[5])} {q(o[6])})'
     if k == 'assign': return f'(OAssignView {cnat(o[1])} {cnat(o[2])} {VIEW[o[3]]})'
     if k == 'copy_row': return f'(OCopyRow {cnat(o[1])} {VIEW[o[2]]} {cnat(o[3])} {cnat(o[4])})'
+    if k == 'from_streams': return f'(OFromStreams {clist([o[1]] + list(o[2]), cnat)})'
     raise ValueError(k)
 
 def cmat(m):
@@ -575,7 +656,7 @@ def coq_case(case, out):
 def coq_show(case, out):
     return f'(show_case {cutab()} {clist(case["streams"], cinit)} {clist(out["ops"], cop)})'
 
-STRUCT = ('T', 'P', 'phase', 'phases', 'link', 'unlink', 'copy_like', 'thermo', 'rtrip')
+STRUCT = ('T', 'P', 'phase', 'phases', 'link', 'unlink', 'copy_like', 'thermo', 'rtrip', 'from_streams')
 WRITES = ('set', 'set_flow', 'set_total', 'setF', 'set_data', 'assign', 'copy_row')
 def nontrivial(case, out):
     ok = [o[0] for o, b in zip(out.get('ops', []), out.get('obs', [])) if not (isinstance(b, str))]
@@ -615,9 +696,18 @@ def check_stream(s, where):
     if mass.shape != mol.shape: return f'{where}: mass view has shape {mass.shape}, molar data {mol.shape}'
     if vol.shape != mol.shape: return f'{where}: vol view has shape {vol.shape}, molar data {mol.shape}'
     T, P = s.T, s.P
+    gids = PKG_GIDS[pkg_of(s)]
     for r, ph in enumerate(phases):
         for c, cid in enumerate(ids):
-            gid = GIDS[cid]
+            gid = gids[c]
+            key = (ph, cid) if is_multi(s) else cid
+            for vname, arr in (('mol', mol), ('mass', mass), ('vol', vol)):
+                try:
+                    got = getattr(s, 'i' + vname)[key]
+                except Exception as ex:
+                    return f'{where}: i{vname}[{key}] raised {type(ex).__name__}: {ex}'
+                if not close(got, arr[r, c]):
+                    return f'{where}: name-keyed access i{vname}[{key}] = {got} but the {vname} data at that phase and chemical is {arr[r, c]}'
             if not close(mass[r, c], mol[r, c] * MWS[gid]):
                 return f'{where}: mass[{ph},{cid}] = {mass[r, c]} but mol*MW = {mol[r, c] * MWS[gid]}'
             want = mol[r, c] * 1000. * vstub(gid, ph.lower(), T, P)
@@ -676,7 +766,7 @@ def oracle(case):
                     return f'{where}: i{op[2]}.{k} in {UNITS[op[3]]} raised {type(ex).__name__}: {ex}'
                 if type(ex).__name__ != 'DimensionalityError':
                     return f'{where}: wrong-dimension unit {UNITS[op[3]]} for i{op[2]} raised {type(ex).__name__}, not DimensionalityError'
-            if k in ('assign', 'copy_row'):
+            if k in ('assign', 'copy_row') or (k == 'from_streams' and type(ex).__name__ != 'ValueError'):
                 return f'{where}: raised {type(ex).__name__}: {ex}'
             if k in ('read', 'F', 'alias', 'get_flow', 'get_total'):
                 if not (k in ('get_flow', 'get_total') and e['utab'][op[2]][1] is None):
@@ -738,13 +828,16 @@ def oracle(case):
 def finding_key(case, msg):
     import re
     m = re.search(r'op#\d+ (\w+)', msg)
-    what = 'units' if 'dimension' in msg else 'viewcopy' if 'read back' in msg and 'view' in msg else 'totals' if 'F_vol' in msg or 'F_mass' in msg else 'alias' if 'cached views' in msg else ('vol' if 'vol[' in msg or 'vol view' in msg else ('mass' if 'mass' in msg else 'other'))
+    what = 'keyed' if 'name-keyed' in msg else 'units' if 'dimension' in msg else 'viewcopy' if 'read back' in msg and 'view' in msg else 'totals' if 'F_vol' in msg or 'F_mass' in msg else 'alias' if 'cached views' in msg else ('vol' if 'vol[' in msg or 'vol view' in msg else ('mass' if 'mass' in msg else 'other'))
     return f'C11:{m.group(1) if m else "?"}:{what}'
 
 # minimised histories of the defects found in the unchanged tree (all repaired in /repo now: 071a958, efddd9f, 9fbe2c1,
 # a0ac858, 1c6e5d7, 7cf5a9b; they stay as regression cases); they run first
-CORPUS_NAMES = ['warm_unit_cache_wrong_dimension', 'view_written_with_view', 'memo_phase_redistribution', 'partial_link_different_phases', 'memo_phase', 'unlink_shared_cache', 'link_shared_cache', 'expand_phases_cache', 'copy_like_phase_indexer', 'reset_chemicals_container']
+CORPUS_NAMES = ['adopted_stream_rebinds_TP', 'package_reset_keyed_access', 'package_reset_same_positions_total', 'warm_unit_cache_wrong_dimension', 'view_written_with_view', 'memo_phase_redistribution', 'partial_link_different_phases', 'memo_phase', 'unlink_shared_cache', 'link_shared_cache', 'expand_phases_cache', 'copy_like_phase_indexer', 'reset_chemicals_container']
 CORPUS = [
+    {'streams': [{'kind': 'S', 'pkg': 0, 'phase': 'l', 'T': 320.0, 'P': 65536.0, 'flow': [2.0, 0.5, 1.0]}, {'kind': 'S', 'pkg': 0, 'phase': 'g', 'T': 384.0, 'P': 131072.0, 'flow': [1.0, 3.0, 0.0]}], 'ops': [['read', 1, 'vol'], ['get_flow', 1, 6, 0, 'A_'], ['from_streams', 0, [1]], ['T', 2, 256.0], ['read', 1, 'vol'], ['F', 1, 'vol'], ['set', 1, 'vol', 0, 'B_', 8.0], ['P', 1, 65536.0], ['read', 2, 'vol'], ['F', 2, 'vol']]},   # adopted_stream_rebinds_TP
+    {'streams': [{'kind': 'M', 'pkg': 0, 'phases': ['g', 'l'], 'T': 320.0, 'P': 65536.0, 'flow': [[1.0, 2.0, 0.0], [0.0, 0.5, 3.0]]}, {'kind': 'M', 'pkg': 0, 'phases': ['g', 'l'], 'T': 320.0, 'P': 65536.0, 'flow': [[1.0, 1.0, 1.0], [2.0, 2.0, 2.0]]}], 'ops': [['get_flow', 0, 0, 1, 'C_'], ['set', 0, 'mol', 0, 'A_', 4.0], ['thermo', 0, 1], ['get_flow', 0, 0, 1, 'C_'], ['get_flow', 0, 2, 1, 'C_'], ['set', 0, 'mol', 0, 'A_', 2.0], ['set_flow', 0, 3, 1, 'B_', 8.0], ['get_data', 0, 'mol', 1, 0, 'A_'], ['get_flow', 1, 0, 1, 'C_'], ['read', 0, 'mass']]},   # package_reset_keyed_access
+    {'streams': [{'kind': 'S', 'pkg': 0, 'phase': 'l', 'T': 320.0, 'P': 65536.0, 'flow': [2.0, 0.5, 1.0]}, {'kind': 'M', 'pkg': 2, 'phases': ['g', 'l'], 'T': 320.0, 'P': 65536.0, 'flow': [[1.0, 2.0, 0.0], [0.0, 0.5, 3.0]]}], 'ops': [['F', 0, 'vol'], ['thermo', 0, 2], ['F', 0, 'vol'], ['set_total', 0, 6, 4096.0], ['get_total', 0, 6], ['read', 0, 'vol'], ['get_total', 1, 5], ['thermo', 1, 0], ['get_total', 1, 5], ['read', 1, 'vol']]},   # package_reset_same_positions_total
     {'streams': [{'kind': 'S', 'pkg': 0, 'phase': 'l', 'T': 320.0, 'P': 65536.0, 'flow': [2.0, 0.5, 1.0]}, {'kind': 'M', 'pkg': 0, 'phases': ['g', 'l'], 'T': 320.0, 'P': 65536.0, 'flow': [[1.0, 2.0, 0.0], [0.0, 0.5, 3.0]]}], 'ops': [['get_flow', 0, 3, 0, 'A_'], ['get_total', 1, 6], ['get_data', 0, 'mol', 3, 0, 'A_'], ['set_data', 1, 'mass', 6, 1, 'B_', 2.0], ['get_data', 1, 'vol', 1, 0, 'A_'], ['get_data', 0, 'mass', 3, 0, 'A_'], ['read', 1, 'mol']]},   # warm_unit_cache_wrong_dimension
     {'streams': [{'kind': 'S', 'pkg': 0, 'phase': 'l', 'T': 320.0, 'P': 65536.0, 'flow': [2.0, 0.5, 1.0]}, {'kind': 'S', 'pkg': 0, 'phase': 'g', 'T': 384.0, 'P': 131072.0, 'flow': [1.0, 3.0, 0.0]}, {'kind': 'M', 'pkg': 0, 'phases': ['g', 'l'], 'T': 320.0, 'P': 65536.0, 'flow': [[1.0, 2.0, 0.0], [0.0, 0.5, 3.0]]}], 'ops': [['read', 1, 'vol'], ['assign', 0, 1, 'vol'], ['read', 0, 'vol'], ['F', 0, 'vol'], ['assign', 1, 0, 'mass'], ['copy_row', 2, 'vol', 0, 1], ['read', 2, 'vol'], ['F', 2, 'vol']]},   # view_written_with_view
     {'streams': [{'kind': 'M', 'pkg': 0, 'phases': ['g', 'l'], 'T': 320.0, 'P': 65536.0, 'flow': [[3.0, 0.0, 0.0], [8.0, 0.0, 0.0]]}, {'kind': 'S', 'pkg': 0, 'phase': 'l', 'T': 320.0, 'P': 65536.0, 'flow': [1.0, 1.0, 1.0]}], 'ops': [['F', 0, 'vol'], ['set', 0, 'mol', 0, 'A_', 1.0], ['F', 0, 'vol'], ['get_total', 0, 6], ['set_total', 0, 6, 4096.0], ['get_total', 0, 6], ['read', 0, 'vol']]},   # memo_phase_redistribution
